@@ -196,7 +196,14 @@ pub fn run_all_str(s: &str, o: Options) -> Vec<(&'static str, J)> {
 	out.push(("parse_utf8_infallible_with", project_result(guarded(|| Value::parse_utf8_infallible_with(s.chars(), o)))));
 	out.push(("parse_with", project_result(guarded(|| Value::parse_with(s.chars().map(|c| Ok::<_, Infallible>(DecodedChar::from_utf8(c))), o)))));
 	out.push(("parse_infallible_with", project_result(guarded(|| Value::parse_infallible_with(s.chars().map(DecodedChar::from_utf8), o)))));
+	// the option constructors are routes too: which of them this record is, is decided by the record (the specification's
+	// Strict / AllOpts), never by comparing with what the constructors return
+	if o.accept_truncated_surrogate_pair && o.accept_invalid_codepoints {
+		out.push(("parse_str_with(Options::flexible())", project_result(guarded(|| Value::parse_str_with(s, Options::flexible())))));
+	}
 	if is_strict(&o) {
+		out.push(("parse_str_with(Options::strict())", project_result(guarded(|| Value::parse_str_with(s, Options::strict())))));
+		out.push(("parse_slice_with(Options::default())", project_result(guarded(|| Value::parse_slice_with(s.as_bytes(), Options::default())))));
 		out.push(("parse_str", project_result(guarded(|| Value::parse_str(s)))));
 		out.push(("parse_slice", project_result(guarded(|| Value::parse_slice(s.as_bytes())))));
 		out.push(("parse_utf8", project_result(guarded(|| Value::parse_utf8(s.chars().map(Ok::<char, Infallible>))))));
